@@ -261,8 +261,7 @@ class AuxNew(AuxBase):
         return out
 
     def model(self, w, op, out):
-        w.m.nodes[op["c"]].a["aux"][op["name"]] = table(op["type"], op["cv"])
-        w.aux_refs.pop((op["c"], op["name"]), None)
+        w.m.nodes[op["c"]].a["aux"][op["name"]] = table(op["type"], op["cv"])  # a NEW table object under that name
         return Exp("ok", value=None, owner=())
 
 
@@ -309,7 +308,7 @@ class AuxRead(AuxBase):
         if out.kind != "ok":
             return Exp("ok", value="read", owner=ov + ("C14",))
         check_read(w, op["c"], op["name"], tbl, out.raw, ov, ("C07", "C09", "C01"), decoded_now=lazy)
-        w.aux_refs[(op["c"], op["name"])] = out.raw
+        w.aux_refs[id(tbl)] = (tbl, out.raw)  # keyed by the TABLE: one AuxData object may be listed twice
         if tbl["state"] == "untouched":
             tbl["state"] = "read"
         elif tbl["state"] == "retyped":
@@ -359,7 +358,7 @@ class AuxMutate(AuxBase):
             w.violate(("C07", "C14"), "aux:mutate_shape", str(e))
         tbl["state"] = "mutated"
         tbl.pop("decoded_lazily", None)
-        w.aux_refs[(op["c"], op["name"])] = out.raw
+        w.aux_refs[id(tbl)] = (tbl, out.raw)
         return Exp("ok", value="mutated", owner=("C07", "C14"))
 
 
@@ -373,7 +372,7 @@ class AuxMutateRef(AuxBase):
 
     def ready(self, w, op):
         tbl = self._tbl(w, op)
-        if tbl is None or tbl["cv"] is None or (op["c"], op["name"]) not in w.aux_refs:
+        if tbl is None or tbl["cv"] is None or id(tbl) not in w.aux_refs:
             return False
         t = R.parse_type(tbl["type"])
         if tbl["state"] not in ("read", "mutated") or R.has_unknown(t):
@@ -383,7 +382,7 @@ class AuxMutateRef(AuxBase):
     def run(self, w, op):
         tbl = self._tbl(w, op)
         t = R.parse_type(tbl["type"])
-        v = w.aux_refs[(op["c"], op["name"])]
+        v = w.aux_refs[id(tbl)][1]
 
         def fn():
             auxm.mutate_in_place(w, op.get("seed", 0), t, v)
@@ -436,7 +435,7 @@ class AuxAssign(AuxBase):
         tbl = self._tbl(w, op)
         tbl["cv"] = op["cv"]
         tbl["state"] = "assigned"
-        w.aux_refs.pop((op["c"], op["name"]), None)
+        w.aux_refs.pop(id(tbl), None)
         tbl.pop("decoded_lazily", None)
         return Exp("ok", value=None, owner=())
 
@@ -474,7 +473,7 @@ class AuxAssignBad(AuxBase):
         tbl = self._tbl(w, op)
         tbl["state"] = "bad"
         tbl["cv"] = [1, 2, 3]
-        w.aux_refs.pop((op["c"], op["name"]), None)
+        w.aux_refs.pop(id(tbl), None)
         w.counters["fault:unencodable_value_assigned"] += 1
         return Exp("ok", value=None, owner=())
 
@@ -571,8 +570,7 @@ class AuxDel(AuxBase):
         return out
 
     def model(self, w, op, out):
-        w.m.nodes[op["c"]].a["aux"].pop(op["name"], None)
-        w.aux_refs.pop((op["c"], op["name"]), None)
+        w.m.nodes[op["c"]].a["aux"].pop(op["name"], None)  # (the table may live on under another name)
         return Exp("ok", value=None, owner=())
 
 
@@ -604,11 +602,6 @@ class AuxAlias(AuxBase):
 
     def model(self, w, op, out):
         w.m.nodes[op["to"]].a["aux"][op["name2"]] = w.m.nodes[op["c"]].a["aux"][op["name"]]  # the same table, not a copy
-        ref = w.aux_refs.get((op["c"], op["name"]))
-        if ref is not None:
-            w.aux_refs[(op["to"], op["name2"])] = ref
-        else:
-            w.aux_refs.pop((op["to"], op["name2"]), None)
         w.counters["probe:aux_table_aliased"] += 1
         return Exp("ok", value=None, owner=())
 
